@@ -98,6 +98,7 @@ func scenPeers(r *Run) {
 		o.Link.LossPM = 100 + t.Choose(ps, 200)
 	}
 	nClients := 1 + t.Choose(ps, 8)
+	lclose := r.Spec.Stratum == "listener-close"
 	longStallAfter := 0
 	if r.Spec.Stratum == "backlog" {
 		nClients = 120 + t.Choose(ps, 40)
@@ -108,6 +109,9 @@ func scenPeers(r *Run) {
 			longStallAfter = 1 + t.Choose(ps, 5)
 			nClients = longStallAfter + 129 + t.Choose(ps, 30)
 		}
+	}
+	if lclose {
+		nClients = 1 + t.Choose(ps, 4)
 	}
 	s.MaxVirtual = 20 * time.Minute
 	s.MaxSteps = 300000
@@ -126,6 +130,35 @@ func scenPeers(r *Run) {
 		pw.stallPM = 100 + t.Choose(ps, 500)
 	}
 	pw.mode = IOMode{Kind: t.Choose(cs, 5)}
+	listenerClosedAt := time.Duration(-1)
+	if lclose {
+		// C15: Listener.Close lands exactly while the listener's receive goroutine
+		// is creating the session of a new peer (parked at a yield point between
+		// the "closed?" test, the registration and the hand-over to the backlog).
+		// Whatever the order, nothing the library started may survive.
+		site := Pick(t, ps, []string{"listener.accept", "listener.newsess"})
+		k := t.Choose(ps, nClients)
+		s.Yield.Armed[site] = true
+		s.Yield.From[site], s.Yield.To[site] = k, k+1
+		s.OnDrain = func() {
+			for _, p := range s.TakeParked() {
+				p := p
+				if p.site != site {
+					s.Stats.Probe("serialised-wake-up")
+					s.At(s.Now(), "wake:"+p.who, func() { s.Release(p) })
+					continue
+				}
+				s.Stats.Fault("listener-closed-during-session-creation")
+				s.At(s.Now(), "listener-close", func() {
+					s.L.Logf("the listener's receive goroutine is at %s (hit %d); the application closes the listener", site, k)
+					w.ListenerClosedMidway = true
+					w.L.Close()
+					listenerClosedAt = s.Now()
+					s.After(time.Duration(1+t.Skewed(ps, 0, 5000))*time.Microsecond, "release", func() { s.Release(p) })
+				})
+			}
+		}
+	}
 	r.Res.Config = fmt.Sprintf("clients=%d stall=%d oob=%v cipher=%s fec=%d/%d udp=%v batch=%v link{base=%dus jit=%dus loss=%d dup=%d reorder=%d/%dus}", nClients, pw.stallPM, oob,
 		o.World.Cipher, o.World.FecD, o.World.FecP, o.World.UDP, o.World.Batch, o.Link.BaseUs, o.Link.JitterUs, o.Link.LossPM, o.Link.DupPM, o.Link.ReorderPM, o.Link.ReorderUs)
 	s.L.Logf("config %s", r.Res.Config)
@@ -186,6 +219,9 @@ func scenPeers(r *Run) {
 
 	// injector
 	nInj := t.Skewed(ps, 0, 120)
+	if lclose {
+		nInj = 0
+	}
 	iat := time.Duration(0)
 	for i := 0; i < nInj; i++ {
 		iat += time.Duration(t.Skewed(ps, 0, 300000)) * time.Microsecond
@@ -228,15 +264,17 @@ func scenPeers(r *Run) {
 		}
 		return true
 	}
-	s.Run(finished)
-	r.Res.Completed = finished()
+	s.Run(func() bool {
+		return finished() || (listenerClosedAt >= 0 && s.Now() > listenerClosedAt+3*time.Second)
+	})
+	r.Res.Completed = finished() || listenerClosedAt >= 0
 	for _, c := range pw.clients {
 		if c.srv != nil && c.srv.In.Read > 0 {
 			r.Res.Progress = true
 		}
 	}
 	r.Res.VirtualMs = int64(s.Now() / time.Millisecond)
-	if s.Viol == nil && r.Res.Completed {
+	if s.Viol == nil && r.Res.Completed && listenerClosedAt < 0 {
 		for _, c := range pw.clients {
 			if c.accepts != 1+c.gen {
 				s.Fail("C11", "accept", "accept-count", "client %d (%s): %d conversations were started, Accept returned %d sessions for it", c.idx, c.addr, 1+c.gen, c.accepts)
